@@ -420,21 +420,35 @@ func keyExchange(klen int, ida, idb []byte, pri *PrivateKey, pub *PublicKey, rpr
 	if err != nil {
 		return
 	}
-	k, ok := kdf(klen, vx.Bytes(), vy.Bytes(), za, zb)
+	// GM/T 0003.3: field elements are converted to byte strings of the fixed length 32
+	vxBuf, vyBuf := bigTo32Bytes(vx), bigTo32Bytes(vy)
+	k, ok := kdf(klen, vxBuf, vyBuf, za, zb)
 	if !ok {
 		err = errors.New("kdf: zero key")
 		return
 	}
-	h1 := BytesCombine(vx.Bytes(), za, zb, rpub.X.Bytes(), rpub.Y.Bytes(), rpri.X.Bytes(), rpri.Y.Bytes())
-	if !thisISA {
-		h1 = BytesCombine(vx.Bytes(), za, zb, rpri.X.Bytes(), rpri.Y.Bytes(), rpub.X.Bytes(), rpub.Y.Bytes())
+	// GM/T 0003.3: S1 = Hash(0x02 || yV || Hash(xV || ZA || ZB || x1 || y1 || x2 || y2)) where
+	// (x1,y1) = RA is the initiator's and (x2,y2) = RB the responder's ephemeral point, for both parties
+	ra, rb := rpub, &rpri.PublicKey
+	if thisISA {
+		ra, rb = &rpri.PublicKey, rpub
 	}
+	h1 := BytesCombine(vxBuf, za, zb, bigTo32Bytes(ra.X), bigTo32Bytes(ra.Y), bigTo32Bytes(rb.X), bigTo32Bytes(rb.Y))
 	hash := sm3.Sm3Sum(h1)
-	h2 := BytesCombine([]byte{0x02}, vy.Bytes(), hash)
+	h2 := BytesCombine([]byte{0x02}, vyBuf, hash)
 	S1 := sm3.Sm3Sum(h2)
-	h3 := BytesCombine([]byte{0x03}, vy.Bytes(), hash)
+	h3 := BytesCombine([]byte{0x03}, vyBuf, hash)
 	S2 := sm3.Sm3Sum(h3)
 	return k, S1, S2, nil
+}
+
+// bigTo32Bytes converts a field element to its 32-byte big-endian encoding.
+func bigTo32Bytes(x *big.Int) []byte {
+	buf := x.Bytes()
+	if n := len(buf); n < 32 {
+		buf = append(zeroByteSlice()[:32-n], buf...)
+	}
+	return buf
 }
 
 func msgHash(za, msg []byte) (*big.Int, error) {
